@@ -16,9 +16,9 @@ PROPS = {
     'C03': {
         'e3_always': ['classic_meaning'],
         'e3': ['compose_paths', 'path_optimizer', 'bigint_from_bytes', 'classic_meaning'],
-        'units': ['paths', 'casts'],
-        'decided': 'classic path arithmetic (compose_paths) and the bigint<->bytes casts the classic compiler stands on, against big-endian / two\'s-complement specs',
-        'not_covered': ['do_com_prog (the CLVM-hosted compiler), macro expansion, classic vs modern agreement: bounded stand-in only (E3: 8 hand-evaluated programs, classic plain and optimised)'],
+        'units': ['paths', 'casts', 'symtable'],
+        'decided': 'classic path arithmetic (compose_paths) and the bigint<->bytes casts the classic compiler stands on, against big-endian / two\'s-complement specs; symbol_table_for_tree (parameter name -> environment path of the classic compiler) records exactly sym_spec of the parameter tree, and (lemma sym_paths_select, over lemma compose_step) every recorded path selects, from any argument value, the sub-value at the structural position of its name, (@ name sub) captures included',
+        'not_covered': ['is_at_capture / non_nil of the classic compiler (contracts ASSUMED in unit symtable)', 'do_com_prog (the CLVM-hosted compiler), macro expansion, classic vs modern agreement: bounded stand-in only (E3: 8 hand-evaluated programs, classic plain and optimised)'],
     },
     'C04': {
         'e3_always': ['path_optimizer'],
@@ -85,23 +85,23 @@ PROPS = {
     'C01': {
         'e3_always': ['source_meaning'],
         'e3': ['source_meaning'],
-        'units': ['envaddr', 'letenv'],
-        'decided': 'environment addressing: create_name_lookup_ returns a path that selects, from ANY argument tree, exactly the value the parameter pattern binds the name to under consensus destructuring (first match, left before right, (@ n sub) captures), and fails only when the pattern does not mention the name; build_tree / compute_code_shape / compute_env_shape lay the helper names out left to right, each once, with the arguments on the right; finalize_env_ keeps that shape and replaces every name leaf by what the name resolves to; lemma env_addressing: the value the shape binds a name to inside the finalized environment is that name\'s code; create_let_env_expression (the environment handed to a let helper hoisted out of an inline function) rebuilds the argument tree so that the helper, destructuring it with the same pattern, binds every parameter, (@ name sub) captures included, to the value the inline function received (lemma rebuilt_env_binds_the_same over the destructuring spec binds); cons_bodyform',
+        'units': ['envaddr', 'letenv', 'inlinepaths'],
+        'decided': 'environment addressing: create_name_lookup_ returns a path that selects, from ANY argument tree, exactly the value the parameter pattern binds the name to under consensus destructuring (first match, left before right, (@ n sub) captures), and fails only when the pattern does not mention the name; build_tree / compute_code_shape / compute_env_shape lay the helper names out left to right, each once, with the arguments on the right; finalize_env_ keeps that shape and replaces every name leaf by what the name resolves to; lemma env_addressing: the value the shape binds a name to inside the finalized environment is that name\'s code; create_let_env_expression (the environment handed to a let helper hoisted out of an inline function) rebuilds the argument tree so that the helper, destructuring it with the same pattern, binds every parameter, (@ name sub) captures included, to the value the inline function received (lemma rebuilt_env_binds_the_same over the destructuring spec binds); cons_bodyform; the inliner\'s path arithmetic for parameters drawn from a &rest tail (choose_arg_from_list_or_tail: element s of the tail is path 3*2^s-1; arg_lookup: the tail after k consumed elements is path 2^(k+1)-1), the two statements extracted as they stand, with lemmas tying the numbers to consensus path lookup',
         'not_covered': ['the rest of let / assign / lambda desugaring (hoist_body_let_binding, generate_let_defun)', 'inlining', 'renaming', 'macro expansion', 'per-leaf resolution inside finalize_env_ (defuns / constants / inlines tables, abstract)', 'start_codegen / codegen as a whole', 'that compiled code computes what the source means: bounded stand-in only (E3: 32 hand-evaluated programs x cl21/cl23)'],
     },
     'C09': {
-        'units': ['printer', 'casts'],
+        'units': ['printer', 'casts', 'quoted'],
         'e3_always': ['disassemble', 'modern_print'],
         'e3': ['disassemble', 'modern_print'],
-        'decided': 'the disassembler\'s per-atom decisions: has_oversized_sign_extension is exactly "not canonical"; ir_for_atom (keywords off) prints an atom of 1-2 bytes as a decimal integer exactly when it is canonical, as hex otherwise, and every form carries the bytes unchanged; the assembler\'s decimal route re-encodes canonically (bigint_to_bytes_clvm), so the integer route round-trips (lemma, decimal print/parse assumed inverse)',
-        'not_covered': ['quoted-string escape/un-escape agreement: bounded stand-in only (E3 round trip on all 1-byte, 2304 2-byte and special 3-byte atoms, 3 positions, 3 versions); the Kani per-atom harness did not finish (HashMap + String in CBMC, 20 min) and was dropped', 'decimal and hex text conversion (assumed inverse pairs)', 'list / dot layout', 'modern printer and reader: bounded stand-in only', 'CLI path'],
+        'decided': 'the disassembler\'s per-atom decisions: has_oversized_sign_extension is exactly "not canonical"; ir_for_atom (keywords off) prints an atom of 1-2 bytes as a decimal integer exactly when it is canonical, as hex otherwise, and every form carries the bytes unchanged; the assembler\'s decimal route re-encodes canonically (bigint_to_bytes_clvm), so the integer route round-trips (lemma, decimal print/parse assumed inverse); the classic assembler\'s string reader consume_quoted returns exactly the scan of the bytes after the opening quote and stops right after the closing quote, and (lemma scan_reads_back) any text a printer wrote by putting a backslash before at least every quote and backslash of s reads back as s',
+        'not_covered': ['that the two printers escape at least the quote and the backslash (classic write_ir / modern escape_quote): bounded stand-in only (E3 round trip on all 1-byte, 2304 2-byte and special 3-byte atoms, 3 positions, 3 versions); the Kani per-atom harness did not finish (HashMap + String in CBMC, 20 min) and was dropped', 'decimal and hex text conversion (assumed inverse pairs)', 'list / dot layout', 'modern printer and reader: bounded stand-in only', 'CLI path'],
     },
     'C14': {
-        'units': ['safety', 'srcloc', 'ser', 'printer', 'depwalk', 'macroext'],
+        'units': ['safety', 'srcloc', 'ser', 'printer', 'depwalk', 'macroext', 'readerstep'],
         'e3_always': ['no_panic', 'include_files', 'macro_ext', 'token_mutations'],
         'e3': ['no_panic', 'include_files', 'macro_ext', 'token_mutations'],
-        'decided': 'absence of panics, arithmetic overflow, out-of-bounds indexing and non-termination (under the stated preconditions) in the front-end leaves under contract: Stream::read / set_seek / get_seek, IRReader::backup, Bytes accessors and concat, atom_from_stream, atom_size_blob, int_from_bytes, get_u32, Srcloc arithmetic incl. len, is_hex / is_space / is_eol, has_oversized_sign_extension, ir_for_atom; Preprocessor::process_include / recurse_dependencies index no parsed form that is not there (empty include file: finding F14, fixed); the defmac extension functions (string? number? symbol? string->symbol symbol->string string-append string-length substring) fetch every argument through required_arg (Ok exactly when the call supplies it) and substring only slices inside the string (finding F17, fixed)',
-        'not_covered': ['the readers as wholes (parse_sexp, read_ir, sexp_from_stream): bounded stand-in only (E3 no-panic sweep, bound stated in evidence)', 'compile, run, debug, REPL, dependency listing as wholes', 'termination of the include walk: recurse_dependencies <-> process_pp_form carry no decreases clause; include cycles overflow the stack (open finding F15, reproduced each run by the include_files stand-in in a child process)', 'located-error clause beyond C15', 'preconditions at unverified call sites (e.g. Stream length >= 1 at IRReader::backup) are assumptions'],
+        'decided': 'absence of panics, arithmetic overflow, out-of-bounds indexing and non-termination (under the stated preconditions) in the front-end leaves under contract: Stream::read / set_seek / get_seek, IRReader::backup, Bytes accessors and concat, atom_from_stream, atom_size_blob, int_from_bytes, get_u32, Srcloc arithmetic incl. len, is_hex / is_space / is_eol, has_oversized_sign_extension, ir_for_atom; the modern reader\'s per-byte transition function parse_sexp_step as a whole (every state x every byte: no index outside a list, no underflow, the recursion on the nested state terminates) and enlist; Preprocessor::process_include / recurse_dependencies index no parsed form that is not there (empty include file: finding F14, fixed); the defmac extension functions (string? number? symbol? string->symbol symbol->string string-append string-length substring) fetch every argument through required_arg (Ok exactly when the call supplies it) and substring only slices inside the string (finding F17, fixed)',
+        'not_covered': ['the other readers as wholes (read_ir, sexp_from_stream) and make_atom / restructure_list: bounded stand-in only (E3 no-panic sweep, bound stated in evidence)', 'compile, run, debug, REPL, dependency listing as wholes', 'termination of the include walk: recurse_dependencies <-> process_pp_form carry no decreases clause; include cycles overflow the stack (open finding F15, reproduced each run by the include_files stand-in in a child process)', 'located-error clause beyond C15', 'preconditions at unverified call sites (e.g. Stream length >= 1 at IRReader::backup) are assumptions'],
     },
     'C19': {
         'units': ['atomicwrite'],
